@@ -89,7 +89,7 @@ func checkC08(c *Ctx) {
 func runC08(c *Ctx, kind string, seed uint64) {
 	n, t := 3, 2
 	r := sched.Derive(seed, 8)
-	w, err := world.NewWorld(world.Options{N: n, T: t, Seed: seed})
+	w, err := world.NewWorld(world.Options{N: n, T: t, Seed: seed, OddNames: seed%3 == 1})
 	if err != nil {
 		c.Inconclusive("world: %v", err)
 		return
